@@ -182,18 +182,22 @@ Inductive action :=
 | ActPowerOff                                  (* powered_up = false, state IDLE *)
 | ActEcho                                      (* state IDLE *)
 | ActOther                                     (* state prev_state *)
-| ActMeasure (freq10 : Z) (res : option (Z * Z)).  (* argument of gsm_freq102arfcn; Some (band_arfcn, dbm) handed to trxcon_phyif_handle_rsp *)
+| ActMeasure (freq10 : Z) (res : option (Z * Z))   (* argument of gsm_freq102arfcn; Some (band_arfcn, dbm) handed to trxcon_phyif_handle_rsp *)
+| ActMeasureUnparsed.                          (* sscanf(resp, "%u %d") != 2: logged, nothing looked up or handed on *)
 
 Inductive ctrl_res :=
 | CrNone                             (* read() <= 0: returned as is, no effect *)
 | CrIgnored                          (* no "RSP " signature: return 0, no effect *)
 | CrNoPending                        (* command list empty: -EINVAL (after osmo_timer_del) *)
 | CrMismatch                         (* verb does not match the pending command: FSM terminated, -EIO *)
+| CrNoStatus                         (* no space after the verb (p == NULL) or no number after it (sscanf != 1): FSM terminated, -EIO *)
 | CrRejected (status : Z)            (* critical command answered with a non-zero status: FSM terminated, -EIO *)
 | CrAccepted (status : Z) (a : action)  (* command removed from the list, next one sent, return 0 (status <> 0 only if not critical) *)
-| CrNullDeref                        (* sscanf(p + 1, ...) with p = strchr(...) = NULL *)
-| CrUninit (what : Z).               (* a value never written is read: 1 = resp (sscanf assigned nothing), 2 = MEASURE text at buf + 14
-                                        lies beyond the octets written by read() and the NUL, 3 = freq10, 4 = dbm *)
+| CrNullDeref                        (* a NULL pointer is dereferenced - not produced by any path of the repaired code (commit 35bc7c1);
+                                        before it: sscanf(p + 1, ...) with p = strchr(...) = NULL *)
+| CrUninit (what : Z).               (* a value never written is read - not produced any more either; before the repair: 1 = resp (sscanf
+                                        assigned nothing), 2 = MEASURE text at buf + 14 beyond the received octets, 3 = freq10, 4 = dbm.
+                                        Both constructors stay so that c_ctrl_rsp_safe is a statement with content. *)
 
 Definition s_RSP : list Z := [82; 83; 80; 32].                       (* "RSP " *)
 Definition s_POWERON : list Z := [80; 79; 87; 69; 82; 79; 78].
@@ -201,24 +205,25 @@ Definition s_POWEROFF : list Z := [80; 79; 87; 69; 82; 79; 70; 70].
 Definition s_MEASURE : list Z := [77; 69; 65; 83; 85; 82; 69].
 Definition s_ECHO : list Z := [69; 67; 72; 79].
 
-(* trx_if_measure_rsp_cb(trx, buf + 14): ext = the initialised extent of buf (received octets ++ [NUL]) *)
-Definition c_measure_rsp (ext : list Z) (status : Z) : ctrl_res :=
-  match cstr (skipn 14 ext) with
-  | None => CrUninit 2
-  | Some m =>
-    match scan_u m with                                              (* sscanf(resp, "%u %d", &freq10, &dbm) *)
-    | None => CrUninit 3                                             (* freq10 /= 100 on an unassigned freq10 *)
-    | Some (f, rest) =>
+(* trx_if_measure_rsp_cb(trx, resp): resp is a C string inside buf (or ""), so every octet it reads was received *)
+Definition c_measure_rsp (m : list Z) (status : Z) : ctrl_res :=
+  match scan_u m with                                                (* sscanf(resp, "%u %d", &freq10, &dbm) != 2 -> return *)
+  | None => CrAccepted status ActMeasureUnparsed
+  | Some (f, rest) =>
+    match scan_d rest with
+    | None => CrAccepted status ActMeasureUnparsed
+    | Some (dbm, _) =>
       let f10 := u16 (f / 100) in                                    (* freq10 /= 100; (uint16_t) freq10 *)
       match freq102arfcn f10 with
       | None => CrAccepted status (ActMeasure f10 None)              (* 0xffff: logged, nothing handed on *)
-      | Some arfcn => match scan_d rest with
-                      | None => CrUninit 4                           (* .dbm = dbm on an unassigned dbm *)
-                      | Some (dbm, _) => CrAccepted status (ActMeasure f10 (Some (arfcn, dbm)))
-                      end
+      | Some arfcn => CrAccepted status (ActMeasure f10 (Some (arfcn, dbm)))
       end
     end
   end.
+
+(* what follows the status in a reply: p = strchr(p + 1, ' '); p ? p + 1 : "" *)
+Definition after_status (after : list Z) : list Z :=
+  match find_sp after with Some j => skipn (j + 1) after | None => [] end.
 
 (* pending = first entry of trx_ctrl_list: (critical, cmd[] contents) *)
 Definition c_ctrl_rsp (pending : option (bool * list Z)) (d : list Z) : ctrl_res :=
@@ -232,14 +237,15 @@ Definition c_ctrl_rsp (pending : option (bool * list Z)) (d : list Z) : ctrl_res
   match pending with None => CrNoPending | Some (critical, cmdbuf) =>
   let cmd4 := skipn 4 (cstr0 cmdbuf) in                             (* tcm->cmd + 4 (cmd[] is zero-filled) *)
   if negb (strncmp_eq (skipn 4 s) cmd4 rsp_len) then CrMismatch else
-  match p with None => CrNullDeref | Some k =>
-  match scan_d (skipn (4 + k + 1) s) with                           (* sscanf(p + 1, "%d", &resp) *)
-  | None => CrUninit 1                                              (* if (resp) on an unassigned resp *)
+  match p with None => CrNoStatus | Some k =>                        (* p == NULL || ... -> rsp_error *)
+  let after := skipn (4 + k + 1) s in                               (* p + 1 *)
+  match scan_d after with                                           (* sscanf(p + 1, "%d", &resp) != 1 -> rsp_error *)
+  | None => CrNoStatus
   | Some (resp, _) =>
     if negb (resp =? 0) && critical then CrRejected resp else
     if strncmp_eq cmd4 s_POWERON 7 then CrAccepted resp ActPowerOn
     else if strncmp_eq cmd4 s_POWEROFF 8 then CrAccepted resp ActPowerOff
-    else if strncmp_eq cmd4 s_MEASURE 7 then c_measure_rsp ext resp
+    else if strncmp_eq cmd4 s_MEASURE 7 then c_measure_rsp (after_status after) resp
     else if strncmp_eq cmd4 s_ECHO 4 then CrAccepted resp ActEcho
     else CrAccepted resp ActOther
   end end end end end.
@@ -247,23 +253,13 @@ Definition c_ctrl_rsp (pending : option (bool * list Z)) (d : list Z) : ctrl_res
 Definition cr_unsafe (r : ctrl_res) : bool :=
   match r with CrNullDeref | CrUninit _ => true | _ => false end.
 
-(* what a datagram must look like for the pinned parser to be memory-safe on it: *)
-(* (a) a status field: a space after the verb, then optional white space, optional sign and at least one digit *)
+(* a reply carries a status field: a space after the verb, then optional white space, optional sign and at least one digit
+   (otherwise a matching reply ends in CrNoStatus) *)
 Definition rsp_has_status (d : list Z) : bool :=
   let s := cstr0 (firstn (Z.to_nat (trxc_buf_size - 1)) d) in
   match find_sp (skipn 4 s) with
   | None => false
   | Some k => match scan_num (skipn (4 + k + 1) s) with Some _ => true | None => false end
-  end.
-(* (b) MEASURE: "<unsigned> <signed>" readable at offset 14 inside the received octets *)
-Definition rsp_measure_text (d : list Z) : bool :=
-  let data := firstn (Z.to_nat (trxc_buf_size - 1)) d in
-  match cstr (skipn 14 (data ++ [0])) with
-  | None => false
-  | Some m => match scan_num m with
-              | None => false
-              | Some (_, _, rest) => match scan_num rest with Some _ => true | None => false end
-              end
   end.
 
 (* =====================================================================================================
@@ -392,18 +388,19 @@ Definition dec_pending (a : list Z) : option (option (bool * list Z) * list Z) :
   | _ => None
   end.
 (* [has_pending; critical; plen; pending chars...; octets...] ->
-   [10] no effect | [12] no pending | [13] FSM terminated (-EIO) | [20; act; ...] accepted | [90] NULL dereference | [80; what] uninitialised read *)
+   [10] no effect | [12] no pending | [13] FSM terminated (-EIO: mismatch, no status, rejected) | [20; act; ...] accepted | [90] NULL dereference | [80; what] uninitialised read (the last two unreachable) *)
 Definition enc_ctrl (r : ctrl_res) : list Z :=
   match r with
   | CrNone | CrIgnored => [10]
   | CrNoPending => [12]
-  | CrMismatch | CrRejected _ => [13]
+  | CrMismatch | CrNoStatus | CrRejected _ => [13]
   | CrAccepted _ ActPowerOn => [20; 1]
   | CrAccepted _ ActPowerOff => [20; 2]
   | CrAccepted _ (ActMeasure f None) => [20; 3; f; 0]
   | CrAccepted _ (ActMeasure f (Some (a, dbm))) => [20; 3; f; 1; a; dbm]
   | CrAccepted _ ActEcho => [20; 4]
   | CrAccepted _ ActOther => [20; 5]
+  | CrAccepted _ ActMeasureUnparsed => [20; 6]
   | CrNullDeref => [90]
   | CrUninit w => [80; w]
   end.
@@ -415,14 +412,10 @@ Definition w_trxif_rsp_branch (a : list Z) : list Z :=
   | Some (p, d) =>
     match c_ctrl_rsp p d with
     | CrNone => [0] | CrIgnored => [1] | CrNoPending => [2] | CrMismatch => [3] | CrRejected s => [4; s]
-    | CrAccepted s _ => [5; s] | CrNullDeref => [6] | CrUninit w => [7; w]
+    | CrAccepted s _ => [5; s] | CrNullDeref => [6] | CrUninit w => [7; w] | CrNoStatus => [8]
     end
   | None => [-999]
   end.
-(* the two side conditions of the safety lemma, evaluated: [has_status; measure_text] *)
-Definition w_trxif_rsp_pre (a : list Z) : list Z :=
-  [if rsp_has_status a then 1 else 0; if rsp_measure_text a then 1 else 0].
-
 Definition dec_cmd (a : list Z) : phy_cmd :=
   match a with
   | 0 :: _ => PReset
